@@ -19,23 +19,23 @@ import (
 // on the real code, so only schedules whose merge steps are contiguous can be forced.
 
 type FCase struct {
-	ID     int             `json:"id"`
-	Sched  [][]string      `json:"sched"`
-	Stored int             `json:"stored"`
-	Cache  int             `json:"cache"`
-	Rets   map[string]int  `json:"rets"`
-	Los    map[string]int  `json:"los"`
-	WCache int             `json:"writecache"`
+	ID     int            `json:"id"`
+	Sched  [][]string     `json:"sched"`
+	Stored int            `json:"stored"`
+	Cache  int            `json:"cache"`
+	Rets   map[string]int `json:"rets"`
+	Los    map[string]int `json:"los"`
+	WCache int            `json:"writecache"`
 }
 
 type FResult struct {
-	ID       int            `json:"id"`
-	Forced   bool           `json:"forced"`
-	Why      string         `json:"why,omitempty"` // why it was not forced (never an alarm)
-	Rets     map[string]int `json:"rets,omitempty"`  // model heights returned by the reads the schedule completes
-	Fresh    int            `json:"fresh"`           // model height returned by a read after the schedule, gates off
-	Stored   int            `json:"stored"`          // model height committed last
-	Panic    string         `json:"panic,omitempty"`
+	ID     int            `json:"id"`
+	Forced bool           `json:"forced"`
+	Why    string         `json:"why,omitempty"`  // why it was not forced (never an alarm)
+	Rets   map[string]int `json:"rets,omitempty"` // model heights returned by the reads the schedule completes
+	Fresh  int            `json:"fresh"`          // model height returned by a read after the schedule, gates off
+	Stored int            `json:"stored"`         // model height committed last
+	Panic  string         `json:"panic,omitempty"`
 }
 
 type gateCtl struct {
@@ -74,6 +74,9 @@ const gateWait = 5 * time.Second
 
 // PermFactory lets C26 force the same schedules on the Redis back-end.
 var PermFactory func(*DB) (isaac.PermanentDatabase, error)
+
+// Forced is the "forced" mode (exported for C26, which sets PermFactory first).
+func Forced(fl map[string]string) error { return forced(fl) }
 
 func forced(fl map[string]string) error {
 	env, err := NewEnv()
